@@ -19,8 +19,6 @@ def StrictInc (rows : List (List ℝ)) : Prop := rows.Pairwise (fun a b => depth
 /-- every row has one depth and `k` values -/
 def Width (k : Nat) (rows : List (List ℝ)) : Prop := ∀ r ∈ rows, r.length = k + 1
 
-theorem depth_def (r : List ℝ) : depth r = r.headD 0 := rfl
-
 /-! ### searchsorted -/
 
 theorem searchsorted_append_of_lt (l1 l2 : List ℝ) (z : ℝ) (h : ∀ x ∈ l1, x < z) :
@@ -56,18 +54,15 @@ theorem interpRow_eq_segVal_of_idx (rows : List (List ℝ)) (z : ℝ) (i : Nat) 
   simp only [hidx, Nat.add_sub_cancel, hlo, hhi]
 
 theorem clip_mid (i n : Nat) (h1 : 1 ≤ i) (h2 : i ≤ n) : clip i 1 n = i := by
-  unfold clip
-  simp [Nat.max_def, Nat.min_def]
+  show min (max i 1) n = i
   omega
 
 theorem clip_low (n : Nat) (h : 1 ≤ n) : clip 0 1 n = 1 := by
-  unfold clip
-  simp [Nat.max_def, Nat.min_def]
+  show min (max 0 1) n = 1
   omega
 
 theorem clip_high (i n : Nat) (h1 : 1 ≤ n) (h2 : n ≤ i) : clip i 1 n = n := by
-  unfold clip
-  simp [Nat.max_def, Nat.min_def]
+  show min (max i 1) n = n
   omega
 
 theorem strictInc_append_cons {pre : List (List ℝ)} {r : List ℝ} {post : List (List ℝ)}
@@ -98,7 +93,7 @@ theorem interpRow_segment (pre : List (List ℝ)) (lo hi : List ℝ) (post : Lis
     rw [hss]
     apply clip_mid
     · omega
-    · simp; omega
+    · simp only [List.length_append, List.length_cons]; omega
   · simp [List.getD_eq_getElem?_getD]
   · simp [List.getD_eq_getElem?_getD]
 
@@ -266,33 +261,45 @@ theorem getD_idxOf_of_mem (names : List String) (k : String) (h : k ∈ names) :
   rw [List.getD_eq_getElem?_getD, List.getElem?_eq_getElem hi]
   simp [List.getElem_idxOf hi]
 
-/-- `get_values` for one depth answers `pick` of the interpolated row at the clamped depth,
-    whenever the requested names are distinct -/
-theorem getValues1_eq_pick (c : Cache ℝ) (zmin zmax z : ℝ) (names : List String) (hnd : names.Nodup) :
-    getValues1 c zmin zmax z names = pick c.names (interpRow c.rows (clampZ zmin zmax z)) names := by
-  unfold getValues1 pick
-  set f := interpRow c.rows (clampZ zmin zmax z) with hf
-  set ks := names.filter (fun nm => c.names.contains nm) with hks
-  have hmem : ∀ k ∈ ks, k ∈ names := fun k hk => (List.mem_filter.mp hk).1
-  have e1 : (ks.map (fun nm => names.idxOf nm)).map (fun k => names.getD k "") = ks := by
+theorem assign_pick (fnames names : List String) (hnd : names.Nodup) (f : List ℝ) :
+    assign (List.replicate names.length (0 : ℝ))
+      ((names.filter (fun nm => fnames.contains nm)).map (fun nm => names.idxOf nm))
+      (((((names.filter (fun nm => fnames.contains nm)).map (fun nm => names.idxOf nm)).map
+        (fun k => names.getD k "")).map (fun nm => fnames.idxOf nm)).map (fun k => f.getD k 0))
+      = pick fnames f names := by
+  have hmem : ∀ k ∈ names.filter (fun nm => fnames.contains nm), k ∈ names :=
+    fun k hk => (List.mem_filter.mp hk).1
+  have e1 : ((names.filter (fun nm => fnames.contains nm)).map (fun nm => names.idxOf nm)).map
+      (fun k => names.getD k "") = names.filter (fun nm => fnames.contains nm) := by
     rw [List.map_map]
-    conv_rhs => rw [← List.map_id ks]
+    conv_rhs => rw [← List.map_id (names.filter (fun nm => fnames.contains nm))]
     apply List.map_congr_left
     intro k hk
-    simp [getD_idxOf_of_mem names k (hmem k hk)]
-  simp only [e1, List.map_map]
-  have := assign_names names hnd (fun nm => f.getD (c.names.idxOf nm) 0) ks hmem
+    exact getD_idxOf_of_mem names k (hmem k hk)
+  rw [e1, List.map_map]
+  have := assign_names names hnd (fun nm => f.getD (fnames.idxOf nm) 0)
+    (names.filter (fun nm => fnames.contains nm)) hmem
     (List.replicate names.length (0 : ℝ)) (by simp)
   simp only [Function.comp_def] at this ⊢
   rw [this]
+  unfold pick
   apply List.ext_getElem
   · simp
   · intro j h1 h2
     simp only [List.length_zipWith, List.length_replicate, List.length_map] at h1 h2
     have hj : j < names.length := by omega
-    simp only [List.getElem_zipWith, List.getElem_replicate, List.getElem_map, hks, List.mem_filter,
+    simp only [List.getElem_zipWith, List.getElem_replicate, List.getElem_map, List.mem_filter,
       List.getElem_mem, true_and]
-    simp [Num.real_zero]
+
+/-- `get_values` for one depth answers `pick` of the interpolated row at the clamped depth,
+    whenever the requested names are distinct -/
+theorem getValues1_eq_pick (c : Cache ℝ) (zmin zmax z : ℝ) (names : List String) (hnd : names.Nodup) :
+    getValues1 c zmin zmax z names = pick c.names (interpRow c.rows (clampZ zmin zmax z)) names := by
+  have := assign_pick c.names names hnd (interpRow c.rows (clampZ zmin zmax z))
+  simp only [Num.real_zero] at this ⊢
+  unfold getValues1
+  simp only [Num.real_zero]
+  exact this
 
 /-! ### clamping -/
 
